@@ -793,9 +793,12 @@ FOS_KETS = [("e0", "e1"), ("ramp", "chirp"), ("g0", "g1"), ("g1", "e0"), ("chirp
 
 
 def fos_cases(tier, seed):
-    plan = [((2, 2), 1, 5), ((2, 2), 2, 5), ((2, 3), 1, 5), ((3, 2), 1, 5), ((3, 2), 2, 3), ((3, 3), 1, 5), ((2, 4), 1, 2), ((4, 2), 1, 2)]
+    # ascending AND descending unequal dimensions at k = 2 are both in the quick tier (after seeded change C13-3, which relabelled the
+    # dimensions as (max, min) without permuting the state: invisible for equal or descending dimensions and at k = 1)
+    plan = [((2, 2), 1, 5), ((2, 2), 2, 5), ((2, 3), 1, 5), ((3, 2), 1, 5), ((3, 2), 2, 3), ((2, 3), 2, 3), ((3, 3), 1, 5), ((2, 4), 1, 2),
+            ((4, 2), 1, 2)]
     if tier == "thorough":
-        plan += [((3, 2), 2, 5), ((2, 3), 2, 3), ((2, 2), 3, 2), ((3, 3), 2, 1)]
+        plan += [((3, 2), 2, 5), ((2, 3), 2, 5), ((2, 4), 2, 2), ((2, 2), 3, 2), ((3, 3), 2, 1)]
     seen = set()
     for dims, k, n in plan:
         for (ka, kb) in FOS_KETS[:n]:
@@ -888,6 +891,51 @@ def fos_check(case):
 
 
 # ------------------------------------------------------------------------------------------------ alphabets (evidence)
+# ------------------------------------------------------------------------------------------------ C13.near_identical
+# Added after seeded change C13-4 (an `allclose` early exit returned exactly 0 for distinct but nearly equal states): the trace distance
+# is positively homogeneous along a segment, T(rho, (1-t) rho + t sigma) = t T(rho, sigma), so pairs at t = 1e-5 .. 1e-8 have a known,
+# strictly positive value that only a relative tolerance can see.
+NEAR_T = (1e-5, 1e-6, 1e-7, 1e-8)
+
+
+def near_cases(tier, seed):
+    for d in dims_for(tier):
+        keys = sub_keys(d)
+        for a in keys:
+            for b in keys:
+                if a == b or a.startswith("near:") or b.startswith("near:"):
+                    continue
+                for t in NEAR_T:
+                    yield {"d": d, "rho": a, "sigma": b, "t": t}
+
+
+def near_check(case):
+    d, t = case["d"], case["t"]
+    rho, sigma = state(d, case["rho"]), state(d, case["sigma"])
+    base = 0.5 * float(np.abs(np.linalg.eigvalsh((rho - sigma + (rho - sigma).conj().T) / 2)).sum())
+    if base < 1e-3:
+        return ok(False, note="endpoints too close")
+    mix = (1 - t) * rho + t * sigma
+    mix = (mix + mix.conj().T) / 2
+    exp = t * base
+    for fn, conv in (("trace_distance", lambda v: v), ("helstrom_holevo", lambda v: 2 * (v - 0.5))):
+        for x, y in ((rho, mix), (mix, rho)):
+            v, exc = call_fn(fn, x.copy(), y.copy())
+            if exc is not None:
+                return viol(f"{fn} raised on a nearly identical pair: " + exc_text(exc), site=fn + ":exception")
+            z = as_number(v)
+            if z is None or not finite(z):
+                return viol(f"{fn} returned {v!r}", site=fn + ":value")
+            got = conv(float(z.real))
+            # absolute floor 1e-12 for the rounding of the eigen-decomposition, 1e-3 relative otherwise (helstrom_holevo subtracts 1/2)
+            if abs(got - exp) > 1e-3 * exp + (2e-12 if fn == "trace_distance" else 1e-10):
+                return viol(f"{fn} on (rho, (1-t) rho + t sigma) with t = {t:g}: distance {got:.6e}, expected t*T(rho,sigma) = {exp:.6e}",
+                            site=fn + ":near_identical", observed=got, expected=exp)
+            if fn == "trace_distance" and not got > 0:
+                return viol("trace distance of two different states is not positive", site="trace_distance:zero_on_distinct", observed=got)
+    return ok(True, obs=None)
+
+
 def alphabets(tier, seed):
     out = {}
     for d in dims_for(tier):
@@ -903,6 +951,8 @@ def alphabets(tier, seed):
 CLAUSES = [
     Clause("C13.definition", definition_cases, definition_check, tol="spec(1e-6)", alphabets=alphabets,
            doc="each function = its documented formula (eigh/svd reference) on ALL ordered pairs, complex and real dtype, decimals"),
+    Clause("C13.near_identical", near_cases, near_check, tol="1e-3 relative",
+           doc="T(rho,(1-t)rho+t sigma) = t T(rho,sigma) > 0 for t = 1e-5..1e-8 (trace_distance, helstrom_holevo), both argument orders"),
     Clause("C13.hs_definition", hs_cases, hs_check, tol="spec(1e-6)",
            doc="hilbert_schmidt = Tr((rho-sigma)^2) on all ordered pairs (closed form 2(1-|<psi|phi>|^2) cross-checked on pure pairs)"),
     Clause("C13.pure_overlap", pure_cases, pure_check, tol="spec(1e-6)",
